@@ -1,14 +1,18 @@
 (* Proofs/C15Proofs.v -- lemmas behind Props/C15.v *)
-From Coq Require Import ZArith NArith List Bool Lia.
-From V Require Import Base.UString Model.Calendar Model.Timestamp Spec.TimestampSpec.
+From Coq Require Import String ZArith NArith List Bool Lia.
+From V Require Import Base.UString Model.Calendar Model.Timestamp Spec.TimestampSpec
+  Proofs.CalendarFacts Proofs.TimestampFacts Proofs.StrptimeFacts.
 Import ListNotations.
-Open Scope Z_scope.
+Open Scope list_scope. Open Scope Z_scope.
 
-Definition sp (p : precision) : sprecision := match p with PAny => SAny | PSecond => SSecond | PMilli => SMilli end.
-Definition sc (c : pconstraint) : sconstraint := match c with CExact => SExact | CMin => SMin end.
+Ltac Zify.zify_post_hook ::= Z.to_euclidean_division_equations.
 
+(* ---- truncation ---- *)
 Lemma unit_pos : forall p c, 0 < unit_of p c.
 Proof. intros [] []; cbn; lia. Qed.
+
+Lemma unit_cases : forall p c, unit_of p c = 1 \/ unit_of p c = 1000 \/ unit_of p c = 1000000.
+Proof. intros [] []; cbn; auto. Qed.
 
 Lemma floor_le_lemma : forall p c t,
   floor_to p c t <= t < floor_to p c t + unit_of p c /\ (floor_to p c t) mod unit_of p c = 0.
@@ -23,4 +27,321 @@ Proof.
   intros p c t1 t2 H. unfold floor_to. pose proof (unit_pos p c) as U.
   rewrite !Zmod_eq by lia.
   pose proof (Z.div_le_mono t1 t2 (unit_of p c) U H). nia.
+Qed.
+
+Lemma floor_idem : forall p c t, floor_to p c (floor_to p c t) = floor_to p c t.
+Proof.
+  intros p c t. pose proof (floor_le_lemma p c t) as [_ M]. unfold floor_to at 1. rewrite M. lia.
+Qed.
+
+Lemma floor_in_range : forall p c t, in_range t = true -> in_range (floor_to p c t) = true.
+Proof.
+  intros p c t R. unfold in_range, max_instant in *. apply andb_true_iff in R as [R0 R1].
+  apply Z.leb_le in R0. apply Z.ltb_lt in R1. apply andb_true_iff.
+  unfold floor_to. destruct (unit_cases p c) as [E|[E|E]]; rewrite E; split; try apply Z.leb_le; try apply Z.ltb_lt; lia.
+Qed.
+
+(* shifting by a multiple of the unit commutes with truncation *)
+Lemma floor_shift : forall p c t o, o mod unit_of p c = 0 -> floor_to p c (t - o) = floor_to p c t - o.
+Proof.
+  intros p c t o H. unfold floor_to. destruct (unit_cases p c) as [E|[E|E]]; rewrite E in *; lia.
+Qed.
+
+(* the model's "ensure correct precision" step is the specification's truncation *)
+Lemma stored_trunc_floor : forall p c t, stored_trunc p c t = floor_to (sp p) (sc c) t.
+Proof.
+  intros [] [] t; cbn [stored_trunc sp sc]; unfold floor_to; cbn [unit_of]; lia.
+Qed.
+
+(* ---- the written text depends on the instant only through its truncation ---- *)
+Lemma floor_divmod : forall u k t, 0 < u -> 0 < k ->
+  (t - t mod u) / (k * u) = t / (k * u) /\
+  (t - t mod u) mod (k * u) = t mod (k * u) - (t mod (k * u)) mod u.
+Proof.
+  intros u k t Hu Hk. set (D := k * u). assert (HD : 0 < D) by (unfold D; nia).
+  assert (E : t mod u = (t mod D) mod u).
+  { apply Znumtheory.Zmod_div_mod; try assumption. exists k. reflexivity. }
+  pose proof (Z.div_mod t D ltac:(lia)) as DM.
+  pose proof (Z.mod_pos_bound t D HD) as B.
+  pose proof (Z.mod_pos_bound (t mod D) u Hu) as B2.
+  pose proof (Z.mod_le (t mod D) u ltac:(lia) Hu) as B3.
+  assert (EQ : t - t mod u = D * (t / D) + (t mod D - (t mod D) mod u)) by (rewrite E; lia).
+  split.
+  - symmetry. apply (Z.div_unique_pos _ _ _ (t mod D - (t mod D) mod u)); [lia|exact EQ].
+  - symmetry. apply (Z.mod_unique_pos _ _ (t / D)); [lia|exact EQ].
+Qed.
+
+Lemma fields_of_floor : forall u t, (u = 1 \/ u = 1000 \/ u = 1000000) ->
+  fields_of (t - t mod u) =
+  let f := fields_of t in
+  mkFields (f_year f) (f_month f) (f_day f) (f_hour f) (f_min f) (f_sec f) (f_us f - f_us f mod u).
+Proof.
+  intros u t U. unfold fields_of. cbv zeta.
+  assert (Hu : 0 < u) by lia.
+  assert (Kd : exists k, 0 < k /\ us_per_day = k * u).
+  { unfold us_per_day. destruct U as [->|[->| ->]]; [exists 86400000000|exists 86400000|exists 86400]; split; reflexivity. }
+  assert (Ks : exists k, 0 < k /\ us_per_sec = k * u).
+  { unfold us_per_sec. destruct U as [->|[->| ->]]; [exists 1000000|exists 1000|exists 1]; split; reflexivity. }
+  destruct Kd as (kd & Hkd & Ed). destruct Ks as (ks & Hks & Es).
+  destruct (floor_divmod u kd t Hu Hkd) as [D R]. rewrite <- Ed in D, R.
+  rewrite D, R. destruct (civil_of_days (t / us_per_day)) as [[y m] d].
+  cbn [f_year f_month f_day f_hour f_min f_sec f_us].
+  set (r := t mod us_per_day).
+  destruct (floor_divmod u ks r Hu Hks) as [S M]. rewrite <- Es in S, M.
+  rewrite S, M. reflexivity.
+Qed.
+
+Lemma frac_digits_floor : forall p c us, 0 <= us < 1000000 ->
+  frac_digits p c (us - us mod unit_of (sp p) (sc c)) = frac_digits p c us.
+Proof.
+  intros p c us B. destruct p, c; cbn [sp sc unit_of]; rewrite ?Z.mod_1_r, ?Z.sub_0_r; try reflexivity.
+  cbn [frac_digits digitsn firstn].
+  change (10 ^ Z.of_nat 5) with 100000. change (10 ^ Z.of_nat 4) with 10000. change (10 ^ Z.of_nat 3) with 1000.
+  set (x := us - us mod 1000).
+  assert (E5 : x / 100000 mod 10 = us / 100000 mod 10) by (unfold x; lia).
+  assert (E4 : x / 10000 mod 10 = us / 10000 mod 10) by (unfold x; lia).
+  assert (E3 : x / 1000 mod 10 = us / 1000 mod 10) by (unfold x; lia).
+  now rewrite E5, E4, E3.
+Qed.
+
+Lemma format_floor : forall ym p c t, in_range t = true ->
+  format ym p c (floor_to (sp p) (sc c) t) = format ym p c t.
+Proof.
+  intros ym p c t R. unfold format, floor_to. rewrite fields_of_floor by apply unit_cases. cbv zeta.
+  cbn [f_year f_month f_day f_hour f_min f_sec f_us].
+  pose proof (fields_facts t R) as F. cbv zeta in F. destruct F as (_ & _ & _ & _ & _ & _ & Hus & _).
+  rewrite frac_digits_floor; [reflexivity|]. rewrite Hus. lia.
+Qed.
+
+(* ---- canonical shape, what the text denotes, digit counts ---- *)
+Lemma fmt_canonical_lemma : forall p c t, in_range t = true -> is_canonical (format Pad4 p c t) = true.
+Proof.
+  intros p c t R. pose proof (spec_read_format p c t R) as S. unfold spec_read in S. unfold is_canonical.
+  destruct (read_shape (format Pad4 p c t)); [reflexivity|discriminate].
+Qed.
+
+Lemma fmt_canonical_refuted_lemma :
+  exists t, in_range t = true /\ forall p c, is_canonical (format Unpadded p c t) = false.
+Proof. exists (dt 999 1 2 3 4 5 0). split; [reflexivity|]. intros [] []; vm_compute; reflexivity. Qed.
+
+Lemma fmt_denotes_lemma : forall p c t, in_range t = true ->
+  exists rd, spec_read (format Pad4 p c t) = Some rd /\ denotes rd (floor_to (sp p) (sc c) t).
+Proof.
+  intros p c t R. eexists. split; [apply (spec_read_format p c t R)|].
+  unfold denotes. pose proof (frac_scaled p c (t mod 1000000) ltac:(lia)) as F.
+  set (ds := frac_digits p c (t mod 1000000)) in *.
+  set (k := 10 ^ Z.of_nat (length ds)) in *.
+  unfold floor_to.
+  assert (E : t - t mod unit_of (sp p) (sc c)
+              = t / 1000000 * 1000000 + (t mod 1000000 - (t mod 1000000) mod unit_of (sp p) (sc c))).
+  { destruct (unit_cases (sp p) (sc c)) as [U|[U|U]]; rewrite U; lia. }
+  rewrite E. rewrite Z.mul_add_distr_r, Z.mul_add_distr_r, <- F. ring.
+Qed.
+
+Lemma frac_length6 : forall p c us, (length (frac_digits p c us) <= 6)%nat.
+Proof.
+  intros p c us. pose proof (rstrip0_length (digitsn 6 us)) as L. rewrite digitsn_length in L.
+  destruct p, c; cbn [frac_digits]; try (destruct (us =? 0); cbn [length]; lia).
+  - rewrite firstn_length, digitsn_length. lia.
+  - unfold ljust3. rewrite app_length, repeat_length. lia.
+Qed.
+
+Lemma fmt_digits_lemma : forall p c t, in_range t = true ->
+  exists secs ds, spec_read (format Pad4 p c t) = Some (secs, ds) /\ digit_rule (sp p) (sc c) ds /\
+                  (length ds <= 6)%nat.
+Proof.
+  intros p c t R. exists (t / 1000000), (frac_digits p c (t mod 1000000)).
+  split; [apply (spec_read_format p c t R)|]. split; [apply frac_digit_rule; lia|apply frac_length6].
+Qed.
+
+(* a reading denotes at most one instant *)
+Lemma denotes_unique : forall rd x y, denotes rd x -> denotes rd y -> x = y.
+Proof.
+  intros [secs ds] x y Hx Hy. unfold denotes in *.
+  assert (K : 0 < 10 ^ Z.of_nat (length ds)) by (apply Z.pow_pos_nonneg; lia). nia.
+Qed.
+
+Lemma fmt_order_lemma : forall p c t1 t2 rd1 rd2 x1 x2, in_range t1 = true -> in_range t2 = true -> t1 <= t2 ->
+  spec_read (format Pad4 p c t1) = Some rd1 -> spec_read (format Pad4 p c t2) = Some rd2 ->
+  denotes rd1 x1 -> denotes rd2 x2 -> x1 <= x2.
+Proof.
+  intros p c t1 t2 rd1 rd2 x1 x2 R1 R2 L S1 S2 D1 D2.
+  destruct (fmt_denotes_lemma p c t1 R1) as (r1 & E1 & F1). destruct (fmt_denotes_lemma p c t2 R2) as (r2 & E2 & F2).
+  rewrite S1 in E1. rewrite S2 in E2. inversion E1; inversion E2; subst.
+  rewrite (denotes_unique _ _ _ D1 F1), (denotes_unique _ _ _ D2 F2). now apply floor_monotone_lemma.
+Qed.
+
+(* ---- reading back with the library's own parser (strptime model) ---- *)
+Lemma digitsn2_eq : forall v, digitsn 2 v = [v / 10 mod 10; v mod 10].
+Proof. intros v. cbn [digitsn]. change (10 ^ Z.of_nat 1) with 10. change (10 ^ Z.of_nat 0) with 1. now rewrite Z.div_1_r. Qed.
+
+Lemma digitsn4_eq : forall v, digitsn 4 v = [v / 1000 mod 10; v / 100 mod 10; v / 10 mod 10; v mod 10].
+Proof.
+  intros v. cbn [digitsn]. change (10 ^ Z.of_nat 3) with 1000. change (10 ^ Z.of_nat 2) with 100.
+  change (10 ^ Z.of_nat 1) with 10. change (10 ^ Z.of_nat 0) with 1. now rewrite Z.div_1_r.
+Qed.
+
+Lemma mod10_isdigit : forall v, isdigit (v mod 10).
+Proof. intros v. unfold isdigit. lia. Qed.
+
+Lemma has_dot_text_of : forall ds, Forall isdigit ds -> has_dot (text_of ds) = false.
+Proof.
+  induction ds as [|d r IH]; intros F; [reflexivity|]. inversion F; subst.
+  unfold has_dot, text_of in *. cbn [map existsb]. rewrite dchar_not_dot by assumption. now apply IH.
+Qed.
+
+Lemma has_dot_app : forall a b, has_dot (a ++ b)%list = has_dot a || has_dot b.
+Proof. intros. unfold has_dot. apply existsb_app. Qed.
+
+(* the microsecond value strptime recovers from the written fraction *)
+Lemma frac_us_value : forall p c us, 0 <= us < 1000000 ->
+  (match frac_digits p c us with
+   | [] => 0
+   | _ => digits_value (frac_digits p c us) 0 * 10 ^ Z.of_nat (6 - length (frac_digits p c us))
+   end) = us - us mod unit_of (sp p) (sc c).
+Proof.
+  intros p c us B. pose proof (frac_scaled p c us B) as F. pose proof (frac_length6 p c us) as L.
+  set (ds := frac_digits p c us) in *.
+  assert (G : digits_value ds 0 * 10 ^ Z.of_nat (6 - length ds) = us - us mod unit_of (sp p) (sc c)).
+  { assert (K : 0 < 10 ^ Z.of_nat (length ds)) by (apply Z.pow_pos_nonneg; lia).
+    assert (P : 1000000 = 10 ^ Z.of_nat (6 - length ds) * 10 ^ Z.of_nat (length ds)).
+    { rewrite <- Z.pow_add_r by lia. replace (Z.of_nat (6 - length ds) + Z.of_nat (length ds)) with 6 by lia. reflexivity. }
+    rewrite P in F. nia. }
+  destruct ds as [|d r] eqn:E; [cbn in G; lia|exact G].
+Qed.
+
+Lemma parse_format_lemma : forall p c t, in_range t = true ->
+  parse_strptime (format Pad4 p c t) = Some (floor_to (sp p) (sc c) t).
+Proof.
+  intros p c t R. pose proof (fields_facts t R) as F. cbv zeta in F.
+  destruct F as (Hy & V & Dn & Hh & Hmi & Hs & Hus & Hsecs).
+  pose proof (valid_date_bounds _ _ _ V) as [Hm Hd].
+  unfold parse_strptime.
+  set (f := fields_of t) in *.
+  set (frac := frac_digits p c (f_us f)).
+  assert (FF : Forall isdigit frac) by apply frac_digits_isdigit.
+  assert (Shape : format Pad4 p c t =
+    dchar (f_year f / 1000 mod 10) :: dchar (f_year f / 100 mod 10) :: dchar (f_year f / 10 mod 10) :: dchar (f_year f mod 10) :: 45%N ::
+    dchar (f_month f / 10 mod 10) :: dchar (f_month f mod 10) :: 45%N ::
+    dchar (f_day f / 10 mod 10) :: dchar (f_day f mod 10) :: 84%N ::
+    dchar (f_hour f / 10 mod 10) :: dchar (f_hour f mod 10) :: 58%N ::
+    dchar (f_min f / 10 mod 10) :: dchar (f_min f mod 10) :: 58%N ::
+    dchar (f_sec f / 10 mod 10) :: dchar (f_sec f mod 10) ::
+    (match frac with [] => [] | _ => 46%N :: text_of frac end) ++ [90%N]).
+  { unfold format, year_text, pad2. fold f. fold frac. rewrite digitsn4_eq, !digitsn2_eq. reflexivity. }
+  assert (Dot : has_dot (format Pad4 p c t) = negb (is_nil frac)).
+  { rewrite Shape. unfold has_dot. cbn [existsb]. rewrite !dchar_not_dot by apply mod10_isdigit.
+    cbn [orb N.eqb Pos.eqb]. fold (has_dot ((match frac with [] => [] | _ => 46%N :: text_of frac end) ++ [90%N])).
+    rewrite has_dot_app. destruct frac as [|d r]; [reflexivity|]. reflexivity. }
+  rewrite Dot, Shape.
+  rewrite regex_match_canonical; try apply mod10_isdigit; try assumption; try apply frac_length6; try lia.
+  unfold frac. rewrite frac_us_value by lia.
+  replace (((f_year f / 1000 mod 10 * 10 + f_year f / 100 mod 10) * 10 + f_year f / 10 mod 10) * 10 + f_year f mod 10)
+    with (f_year f) by lia.
+  replace (f_month f / 10 mod 10 * 10 + f_month f mod 10) with (f_month f) by lia.
+  replace (f_day f / 10 mod 10 * 10 + f_day f mod 10) with (f_day f) by lia.
+  replace (f_hour f / 10 mod 10 * 10 + f_hour f mod 10) with (f_hour f) by lia.
+  replace (f_min f / 10 mod 10 * 10 + f_min f mod 10) with (f_min f) by lia.
+  replace (f_sec f / 10 mod 10 * 10 + f_sec f mod 10) with (f_sec f) by lia.
+  set (us' := f_us f - f_us f mod unit_of (sp p) (sc c)).
+  assert (Bus : 0 <= us' < 1000000).
+  { unfold us'. rewrite Hus. destruct (unit_cases (sp p) (sc c)) as [U|[U|U]]; rewrite U; lia. }
+  assert (VF : valid_fields (f_year f) (f_month f) (f_day f) (f_hour f) (f_min f) (f_sec f) us' = true).
+  { unfold valid_fields, us_per_sec. rewrite V.
+    repeat (apply andb_true_iff; split); try apply Z.leb_le; try apply Z.ltb_lt; try reflexivity; lia. }
+  rewrite VF. f_equal. unfold instant_of, floor_to, us', us_per_sec. rewrite Dn, Hsecs, Hus.
+  destruct (unit_cases (sp p) (sc c)) as [U|[U|U]]; rewrite U; lia.
+Qed.
+
+(* ---- write . read . write ---- *)
+Lemma write_instant : forall p c t, in_range t = true ->
+  format_dt Pad4 p c (stored_trunc p c t) (Some 0) = Ok (format Pad4 p c t).
+Proof.
+  intros p c t R. unfold format_dt. rewrite Z.sub_0_r, stored_trunc_floor, floor_in_range by assumption.
+  now rewrite format_floor.
+Qed.
+
+Lemma fmt_fixpoint_lemma : forall nm p c t, in_range t = true ->
+  write nm Pad4 p c (InStr (format Pad4 p c t)) = Ok (format Pad4 p c t).
+Proof.
+  intros nm p c t R. unfold write, parse_into. rewrite parse_format_lemma by assumption.
+  rewrite write_instant by (now apply floor_in_range). now rewrite format_floor.
+Qed.
+
+(* ---- every accepted input: the text written is that of the UTC instant ---- *)
+Lemma valid_fields_in_range : forall y m d hh mm ss us, valid_fields y m d hh mm ss us = true ->
+  in_range (instant_of y m d hh mm ss us) = true.
+Proof.
+  intros y m d hh mm ss us V. unfold valid_fields, us_per_sec in V.
+  repeat (apply andb_true_iff in V as [V ?]). rewrite ?Z.leb_le, ?Z.ltb_lt in *.
+  match goal with H : valid_date _ _ _ = true |- _ => pose proof (valid_date_within_year _ _ _ H) as W end.
+  pose proof (days_before_year_mono 1 y ltac:(lia)) as M1. change (days_before_year 1) with 0 in M1.
+  pose proof (days_before_year_mono (y + 1) 10000 ltac:(lia)) as M2. change (days_before_year 10000) with 3652059 in M2.
+  unfold in_range, max_instant, instant_of, us_per_sec. apply andb_true_iff; split; [apply Z.leb_le|apply Z.ltb_lt]; lia.
+Qed.
+
+Lemma parse_strptime_in_range : forall s t, parse_strptime s = Some t -> in_range t = true.
+Proof.
+  intros s t H. unfold parse_strptime in H.
+  destruct (regex_match (has_dot s) s) as [[[[[[[[y m] d] hh] mm] ss] us] [|? ?]]|]; try discriminate.
+  destruct (valid_fields y m d hh mm ss us) eqn:V; [|discriminate]. inversion H; subst. now apply valid_fields_in_range.
+Qed.
+
+Lemma write_string_lemma : forall nm p c s t, parse_strptime s = Some t ->
+  write nm Pad4 p c (InStr s) = Ok (format Pad4 p c t) /\ in_range t = true.
+Proof.
+  intros nm p c s t H. pose proof (parse_strptime_in_range s t H) as R. split; [|exact R].
+  unfold write, parse_into. rewrite H. now apply write_instant.
+Qed.
+
+Lemma write_string_rejected_lemma : forall nm p c s, parse_strptime s = None -> write nm Pad4 p c (InStr s) = Raise "ValueError"%string.
+Proof. intros nm p c s H. unfold write, parse_into. now rewrite H. Qed.
+
+Lemma write_date_lemma : forall nm p c y m d, valid_fields y m d 0 0 0 0 = true ->
+  write nm Pad4 p c (InDate y m d) = Ok (format Pad4 p c (instant_of y m d 0 0 0 0)).
+Proof.
+  intros nm p c y m d V. unfold write, parse_into. apply write_instant. now apply valid_fields_in_range.
+Qed.
+
+(* datetime with an offset that is a multiple of the precision unit (every
+   whole-second offset is): truncating the local fields, then converting to UTC,
+   writes the text of the UTC instant                                        *)
+Lemma write_aware_lemma : forall nm p c l o, in_range (l - o) = true -> o mod unit_of (sp p) (sc c) = 0 ->
+  write nm Pad4 p c (InDatetime l (Some o)) = Ok (format Pad4 p c (l - o)).
+Proof.
+  intros nm p c l o R M. unfold write, parse_into, format_dt.
+  rewrite stored_trunc_floor, <- floor_shift by assumption.
+  rewrite floor_in_range by assumption. now rewrite format_floor.
+Qed.
+
+Lemma write_naive_lemma : forall nm p c l, in_range l = true ->
+  write nm Pad4 p c (InDatetime l None) = Ok (format Pad4 p c l).
+Proof.
+  intros nm p c l R. destruct nm; unfold write, parse_into, format_dt; rewrite stored_trunc_floor.
+  - now rewrite format_floor.
+  - rewrite Z.sub_0_r, floor_in_range by assumption. now rewrite format_floor.
+Qed.
+
+Lemma whole_second_offset : forall p c o, o mod 1000000 = 0 -> o mod unit_of p c = 0.
+Proof. intros p c o H. destruct (unit_cases p c) as [U|[U|U]]; rewrite U; lia. Qed.
+
+Lemma write_overflow_lemma : forall nm ym p c l o, o mod unit_of (sp p) (sc c) = 0 -> in_range (l - o) = false ->
+  in_range l = true -> write nm ym p c (InDatetime l (Some o)) = Raise "OverflowError"%string.
+Proof.
+  intros nm ym p c l o M R Rl. unfold write, parse_into, format_dt.
+  rewrite stored_trunc_floor, <- floor_shift by assumption.
+  assert (F : in_range (floor_to (sp p) (sc c) (l - o)) = false); [|now rewrite F].
+  unfold in_range, max_instant, floor_to in *.
+  apply andb_true_iff in Rl as [R0 R1]. apply Z.leb_le in R0. apply Z.ltb_lt in R1.
+  apply andb_false_iff in R. apply andb_false_iff.
+  destruct R as [R|R]; [left; apply Z.leb_gt; apply Z.leb_gt in R|right; apply Z.ltb_ge; apply Z.ltb_ge in R];
+    destruct (unit_cases (sp p) (sc c)) as [U|[U|U]]; rewrite U in *; lia.
+Qed.
+
+(* the hypothesis on the offset is needed: a half-second offset at exact-second precision *)
+Lemma subsecond_offset_counterexample :
+  exists l o, in_range (l - o) = true /\ forall nm,
+    write nm Pad4 PSecond CExact (InDatetime l (Some o)) <> Ok (format Pad4 PSecond CExact (l - o)).
+Proof.
+  exists (dt 2020 2 3 12 0 0 700000), 500000. split; [reflexivity|]. intros []; vm_compute; discriminate.
 Qed.
